@@ -43,7 +43,7 @@ RESP = [
     {"k": "resp", "status": 500, "body": "err"},
 ]
 ALL_OUTCOMES = CONNECT_F + SEND_F + RECV_F + RESP + CHECKOUT_F
-DISPOSALS = ["read", "read-part-release", "release-unread", "drain", "close", "stream", "read1-loop", "context", "data", "read-part-close", "drain-release"]
+DISPOSALS = ["read", "read-part-release", "release-unread", "drain", "close", "stream", "read1-loop", "context", "data", "read-part-close", "drain-release", "read1-exact", "readinto-exact"]
 RETRIES = [False, 0, 1, 3, {"total": 3, "status_forcelist": [503]}, {"total": None, "connect": 1, "read": 1, "status": 1, "other": 1, "redirect": 2, "status_forcelist": [503]}]
 BASE_NAMES = ("KeyboardInterrupt", "SystemExit", "InjectedBase", "GeneratorExit")
 
@@ -91,6 +91,27 @@ def _dispose(resp: typing.Any, how: str) -> None:
     elif how == "read1-loop":
         while resp.read1(5):
             pass
+    elif how == "read1-exact":
+        # read1() until exactly the announced length has arrived, then stop: no further (empty) read, no release_conn()
+        # (at least one call: a response is only known to be empty once it was read)
+        if resp.length_remaining is None:
+            while resp.read1(5):
+                pass
+        else:
+            resp.read1(5)
+            while resp.length_remaining:
+                if not resp.read1(5):
+                    break
+    elif how == "readinto-exact":
+        buf = bytearray(7)
+        if resp.length_remaining is None:
+            while resp.readinto(buf):
+                pass
+        else:
+            resp.readinto(buf)
+            while resp.length_remaining:
+                if not resp.readinto(buf):
+                    break
     elif how == "context":
         if resp.closed:  # io semantics: entering a closed file object raises ValueError (body-less responses are born closed)
             resp.release_conn()
